@@ -228,3 +228,68 @@ ASSUMPTIONS = ["RVData.__init__ contract (proved in C15) used at the call site, 
 NOT_DECIDED = ["that the number of distinct survey labels minus one equals n_offsets on the returning path (pigeonhole; decided by the twin and by C18)",
                "number of surveys K > 3 (the proof is repeated for K = 1, 2, 3 with arbitrary survey sizes; K is the only bounded dimension)",
                "dict keys that are not mutually comparable (np.unique would raise)"]
+
+
+# ---- TheJoker._make_joker_helper: every call prepares THIS call's data and builds the kernel helper from it - whatever earlier calls left on the
+# sampler object (no cached helper / labelling / validation verdict may be reused) ------------------------------------------------------------------
+import ast as _ast   # noqa: E402
+
+TJ = "thejoker.thejoker.TheJoker."
+
+
+def joker_self(history):
+    def build(ex, path, name):
+        fields = {"prior": Opaque("self.prior"), "__qualclass__": "thejoker.thejoker.TheJoker"}
+        if history:
+            known = {"prior", "pool", "rng", "tempfile_path", "_tempfile_path"}
+            for n in _ast.walk(ex.fnsrc.node):
+                a = None
+                if isinstance(n, _ast.Attribute) and isinstance(n.value, _ast.Name) and n.value.id == "self" and isinstance(n.ctx, _ast.Load):
+                    a = n.attr
+                if (isinstance(n, _ast.Call) and isinstance(n.func, _ast.Name) and n.func.id in ("getattr", "hasattr") and len(n.args) >= 2
+                        and isinstance(n.args[0], _ast.Name) and n.args[0].id == "self" and isinstance(n.args[1], _ast.Constant)):
+                    a = n.args[1].value
+                if a and a not in known and not a.startswith("__"):
+                    fields.setdefault(a, Opaque(f"left-on-the-sampler-by-an-earlier-call:{a}"))
+        o = Obj("TheJoker", fields, ident="self")
+        o.fields["__hasattr__"] = lambda a, f=fields: a in f
+        return o
+    return build
+
+
+@model("helper_built_from_this_calls_data", doc="spec: validate_prepare_data was called once, on this call's `data`; the kernel helper was constructed once, from the "
+                                                "prepared data and design matrix of THAT call and the sampler's prior; and that new helper is what is returned")
+def _helper_fresh(ex, path, args, kwargs, node, fn):
+    evs = [e for e in path.ghost.get("events", []) if e.get("kind") == "call" and not e.get("attempted")]
+    vp = [e for e in evs if e["name"].split(".")[-1] == "validate_prepare_data"]
+    ck = [e for e in evs if e["name"].split(".")[-1] == "CJokerHelper"]
+    res = path.env.get("result")
+    if len(vp) != 1 or len(ck) != 1:
+        return False
+    if not vp[0]["args"] or vp[0]["args"][0] is not path.ghost.get("the_data"):
+        return False
+    a = ck[0]["args"]
+    ok_from = lambda x, i: getattr(x, "item_of", None) is not None and x.item_of[1] == i and getattr(x.item_of[0], "from_call", None) is vp[0]
+    if len(a) != 3 or not ok_from(a[0], 0) or not ok_from(a[2], 2):
+        return False
+    if getattr(res, "from_call", None) is not ck[0]:
+        return False
+    return True
+
+
+def _data_param(ex, path, name):
+    d = Opaque("data")
+    path.ghost["the_data"] = d
+    return d
+
+
+LIB["helper_built_from_this_calls_data"] = _helper_fresh
+make_helper = [Contract(TJ + "_make_joker_helper", PROPERTY, params={"self": joker_self(h), "data": _data_param},
+                        cases=[{"_name": "fresh sampler" if not h else "sampler used before (any history)"}],
+                        ensures={"prepares-and-uses-the-data-of-this-call": "helper_built_from_this_calls_data()"})
+               for h in (False, True)]
+for _c in make_helper:
+    _c.cfg_mode = True
+    _c.callees = {}
+    _c.lib = dict(LIB)
+CONTRACTS += make_helper
